@@ -302,7 +302,7 @@ func genHist(c *hx.Ctx, i int) *Hist {
 	if c.Intn(10) == 0 && len(h.Endorsers) > 1 {
 		h.Endorsers = append(h.Endorsers, h.Endorsers[0])
 	}
-	mode := i % 7
+	mode := i % 8
 	// the cast: at most 8 indices (bounds the number of keys of the endorse-signature map, and with
 	// it the number of iteration orders the correspondence has to consider)
 	maxCast := 8
@@ -395,6 +395,55 @@ func genHist(c *hx.Ctx, i int) *Hist {
 					h.Ops = append(h.Ops, g.honestCommit(signers[k], p, c.Intn(8) == 0, ends))
 				}
 			}
+		}
+	case 7:
+		// honest, correctly signed messages split over two or three competing proposals: no single
+		// proposal has a quorum, their union often does
+		h.Label = "split-proposals"
+		var cps []uint32
+		for _, x := range g.cast {
+			if _, ok := g.pos[x]; ok {
+				cps = append(cps, x)
+			}
+		}
+		c.Rng.Shuffle(len(cps), func(a, b int) { cps[a], cps[b] = cps[b], cps[a] })
+		np := 2 + c.Intn(2)
+		if np > len(cps)-1 {
+			np = len(cps) - 1
+		}
+		if np < 1 {
+			np = 1
+		}
+		props := cps[:np]
+		rest := cps[np:]
+		viaEndorse := c.Intn(4) == 0
+		for k, x := range rest {
+			pp := props[k%np]
+			if c.Intn(5) == 0 {
+				pp = props[c.Intn(np)]
+			}
+			if viaEndorse {
+				h.Ops = append(h.Ops, g.honestEndorse(x, pp, false))
+				continue
+			}
+			var ends []uint32
+			if c.Intn(3) == 0 && len(rest) > 1 { // endorsements by backers of the same proposal only
+				for j, y := range rest {
+					if j%np == k%np && y != x && c.Intn(2) == 0 {
+						ends = append(ends, y)
+					}
+				}
+				sort.Slice(ends, func(a, b int) bool { return ends[a] < ends[b] })
+			}
+			h.Ops = append(h.Ops, g.honestCommit(x, pp, false, ends))
+		}
+		for _, pp := range props {
+			if c.Intn(2) == 0 {
+				h.Ops = append(h.Ops, g.proposal(pp, 0))
+			}
+		}
+		if c.Intn(2) == 0 {
+			c.Rng.Shuffle(len(h.Ops), func(a, b int) { h.Ops[a], h.Ops[b] = h.Ops[b], h.Ops[a] })
 		}
 	case 6:
 		// a round short of the quorum; faulty peer f supplies the missing committers / endorsers by
@@ -550,6 +599,31 @@ func strippedProposalProbes() []Hist {
 					{Kind: "endorse", Sender: 1, Claimed: 1, Proposer: 0, Sig: Sig{Key: 1}},
 				}})
 		}
+	}
+	return out
+}
+
+// splitProposalProbes: honest, correctly self-signed commits (and endorsements) backing DIFFERENT
+// competing proposals of one height. No proposal has N-(N-1)/3 signers, the union does: commit must
+// not be declared. N = 7: peers 3, 4 commit for proposer 1 and 5, 6 for proposer 2; N = 4: peer 2
+// commits for proposer 0 and peer 3 for proposer 1; the same through endorsements.
+func splitProposalProbes() []Hist {
+	var out []Hist
+	for _, kind := range []string{"commit", "endorse"} {
+		mk := func(sender, proposer uint32) Op {
+			return Op{Kind: kind, Sender: sender, Claimed: sender, Proposer: proposer, Sig: Sig{Key: int(sender)}}
+		}
+		h7 := Hist{Label: "probe-split-proposals/" + kind + "/N7", N: 7, C: 2, Self: 0, Peers: []uint32{0, 1, 2, 3, 4, 5, 6},
+			Connected: []uint32{1, 2, 3, 4, 5, 6}, Endorsers: []uint32{1, 2, 3, 4, 5},
+			Ops: []Op{mk(3, 1), mk(4, 1), mk(5, 2), mk(6, 2)}}
+		h4 := Hist{Label: "probe-split-proposals/" + kind + "/N4", N: 4, C: 1, Self: 0, Peers: []uint32{0, 1, 2, 3},
+			Connected: []uint32{1, 2, 3}, Endorsers: []uint32{1, 2, 3},
+			Ops: []Op{mk(2, 0), mk(3, 1)}}
+		if kind == "endorse" { // second path: the threshold counts entries, so one more backer each
+			h7.Ops = []Op{mk(1, 1), mk(3, 1), mk(4, 1), mk(2, 2), mk(5, 2), mk(6, 2)}
+			h4.Ops = []Op{mk(0, 0), mk(2, 0), mk(1, 1), mk(3, 1)}
+		}
+		out = append(out, h7, h4)
 	}
 	return out
 }
